@@ -24,10 +24,13 @@ fn main() {
             let tier = args[3].as_str();
             match lsmv::props::spec(id) {
                 Some(spec) => lsmv::runner::run_history_check(&spec, tier, seed),
-                None => {
-                    eprintln!("unknown property {id}");
-                    2
-                }
+                None => match lsmv::special::check(id, tier, seed) {
+                    Some(c) => c,
+                    None => {
+                        eprintln!("unknown property {id}");
+                        2
+                    }
+                },
             }
         }
         "replay" => {
@@ -37,10 +40,13 @@ fn main() {
             let id = args[2].as_str();
             match lsmv::props::spec(id) {
                 Some(spec) => lsmv::runner::replay_history(&spec, Path::new(&args[3])),
-                None => {
-                    eprintln!("unknown property {id}");
-                    2
-                }
+                None => match lsmv::special::replay(id, Path::new(&args[3])) {
+                    Some(c) => c,
+                    None => {
+                        eprintln!("unknown property {id}");
+                        2
+                    }
+                },
             }
         }
         _ => usage(),
